@@ -75,3 +75,94 @@ Definition AtRest (s : state) : Prop :=
   bnd s /\ sync s /\ rows (fun _ => False) s /\ st_db_epoch s = st_epoch s.
 
 End Inv.
+
+(* ---------- lists ---------- *)
+
+Lemma map_opt_ext : forall {A B} (f g : A -> option B) l,
+  (forall x, In x l -> f x = g x) -> map_opt f l = map_opt g l.
+Proof.
+  intros A B f g l. induction l as [|x t IH]; intros H; cbn [map_opt]; [reflexivity|].
+  rewrite (H x) by now left. rewrite IH; [reflexivity|]. intros y Hy. apply H. now right.
+Qed.
+
+Lemma map_opt_some : forall {A B} (f : A -> option B) (g : A -> B) l,
+  (forall x, In x l -> f x = Some (g x)) -> map_opt f l = Some (map g l).
+Proof.
+  intros A B f g l. induction l as [|x t IH]; intros H; cbn [map_opt map]; [reflexivity|].
+  rewrite (H x) by now left. rewrite IH; [reflexivity|]. intros y Hy. apply H. now right.
+Qed.
+
+Lemma branch_keys_incl : forall rl slots x, In x (branch_keys rl slots) -> In x (br_keys rl).
+Proof.
+  intros rl slots x. unfold branch_keys, br_keys. destruct (r_br rl) as [[[i a] b]|]; [|intros []].
+  destruct (nth_error slots i) as [[v|]|]; [| |intros []].
+  - destruct (Nat.ltb i (length (r_req rl))); [|intros []].
+    destruct (is_even v); intros H; apply in_or_app; tauto.
+  - destruct (Nat.ltb i (length (r_req rl))); [|intros []]. intros H; apply in_or_app; tauto.
+Qed.
+
+Lemma in_mentioned : forall rl x,
+  In x (mentioned rl) <-> In x (r_req rl) \/ In x (r_single rl) \/ In x (r_follow rl) \/ In x (br_keys rl) \/ In x (r_disc rl).
+Proof. intros rl x. unfold mentioned. rewrite !in_app_iff. tauto. Qed.
+
+Lemma value_eqb_eq : forall a b, value_eqb a b = true -> a = b.
+Proof.
+  intros [a1 a2] [b1 b2] H. unfold value_eqb in H; cbn in H. apply andb_true_iff in H. destruct H as [H1 H2].
+  apply N.eqb_eq in H1, H2. now subst.
+Qed.
+
+(* ---------- the clean value under a rank ---------- *)
+
+Section CV.
+Variable rules : key -> rule.
+Variable env : key -> N.
+Variable F : key -> N -> list value -> list N -> N -> N.
+Variable rank : key -> nat.
+Hypothesis Hrank : wf_rank rules rank.
+
+Let cv := cv rules env F.
+Let cvk := cvk rules env F rank.
+
+Lemma rank_req : forall k x, In x (r_req (rules k)) -> (rank x < rank k)%nat.
+Proof. intros k x H. apply Hrank, in_mentioned. tauto. Qed.
+Lemma rank_single : forall k x, In x (r_single (rules k)) -> (rank x < rank k)%nat.
+Proof. intros k x H. apply Hrank, in_mentioned. tauto. Qed.
+Lemma rank_follow : forall k x, In x (r_follow (rules k)) -> (rank x < rank k)%nat.
+Proof. intros k x H. apply Hrank, in_mentioned. tauto. Qed.
+Lemma rank_branch : forall k slots x, In x (branch_keys (rules k) slots) -> (rank x < rank k)%nat.
+Proof. intros k slots x H. apply Hrank, in_mentioned. apply branch_keys_incl in H. tauto. Qed.
+Lemma rank_disc : forall k x, In x (r_disc (rules k)) -> (rank x < rank k)%nat.
+Proof. intros k x H. apply Hrank, in_mentioned. tauto. Qed.
+
+Lemma cv_fuel_some : forall f1 k, (rank k < f1)%nat ->
+  (exists v, cv f1 k = Some v) /\ forall f2, (rank k < f2)%nat -> cv f2 k = cv f1 k.
+Proof.
+  induction f1 as [|f1 IH]; intros k Hk; [lia|].
+  assert (Hsub : forall l, (forall x, In x l -> (rank x < rank k)%nat) ->
+            map_opt (cv f1) l = Some (map (fun x => payload_of (cv f1 x)) l) /\
+            forall f2, (rank k <= f2)%nat -> map_opt (cv f2) l = map_opt (cv f1) l).
+  { intros l Hl. split.
+    - apply map_opt_some. intros x Hx. destruct (IH x) as [[v Hv] _]; [specialize (Hl x Hx); lia|].
+      now rewrite Hv.
+    - intros f2 Hf2. apply map_opt_ext. intros x Hx. specialize (Hl x Hx).
+      destruct (IH x) as [_ H2]; [lia|]. apply H2. lia. }
+  destruct (Hsub _ (rank_req k)) as [Hq1 Hq2].
+  destruct (Hsub _ (rank_single k)) as [Hs1 Hs2].
+  destruct (Hsub _ (rank_follow k)) as [Hf1 Hf2].
+  split.
+  - unfold cv. cbn [Spec.cv]. fold cv. rewrite Hq1, Hs1, Hf1.
+    destruct (Hsub _ (rank_branch k (map Some (map (fun x => payload_of (cv f1 x)) (r_req (rules k)))))) as [Hb1 _].
+    rewrite Hb1. eauto.
+  - intros [|f2] Hf; [lia|]. unfold cv. cbn [Spec.cv]. fold cv.
+    rewrite (Hq2 f2), (Hs2 f2), (Hf2 f2) by lia. rewrite Hq1, Hs1, Hf1.
+    destruct (Hsub _ (rank_branch k (map Some (map (fun x => payload_of (cv f1 x)) (r_req (rules k)))))) as [_ Hb2].
+    now rewrite (Hb2 f2) by lia.
+Qed.
+
+Lemma cv_cvk : forall f k, (rank k < f)%nat -> cv f k = cvk k.
+Proof. intros f k H. unfold cvk, SpecInv1.cvk. fold cv. apply (cv_fuel_some (S (rank k)) k); lia. Qed.
+
+Lemma cvk_some : forall k, exists v, cvk k = Some v.
+Proof. intros k. apply (cv_fuel_some (S (rank k)) k). lia. Qed.
+
+End CV.
